@@ -25,7 +25,14 @@ func (m *SortedKeyMap[T]) Set(key string, value T) {
 	_, ok := m.values[key]
 	if !ok {
 		m.keys = append(m.keys, key)
-		sort.Strings(m.keys)
+		// keys are decimal block numbers: order by length first so that
+		// "100" sorts after "99" (plain string order would not)
+		sort.Slice(m.keys, func(i, j int) bool {
+			if len(m.keys[i]) != len(m.keys[j]) {
+				return len(m.keys[i]) < len(m.keys[j])
+			}
+			return m.keys[i] < m.keys[j]
+		})
 	}
 
 	m.values[key] = value
